@@ -431,6 +431,13 @@ def orc_c12(ctx, op, req, impl, model, spec):
 
 
 def orc_c13(ctx, op, req, impl, model, spec):
+    if op == "convx" and impl.startswith("ok"):
+        # the same conversions on an identifier whose variant list is present but empty (from_raw_parts_unchecked)
+        if get_kv(impl[3:], "ideq") != "1" or get_kv(impl[3:], "back") != "1":
+            return "LanguageIdentifier -> Locale -> LanguageIdentifier is not the identity on a value with variants Some([])"
+        if get_kv(impl[3:], "ee") != "1":
+            return "Locale built from a LanguageIdentifier has extensions"
+        return None
     if op != "conv":
         return None
     li, loc = impl.split(" | ", 1)
@@ -704,9 +711,10 @@ PROPS = {
                 design_ref="4/C08"),
     "C09": Prop("C09", [("pairs", None)], {"pair"}, proj_pair, orc_c09, design_ref="4/C09"),
     "C10": Prop("C10", [("hist", None)], {"hist"}, proj_full, orc_c10, design_ref="4/C10"),
-    "C11": Prop("C11", [("match", None)], {"match", "locmatch", "langmatch"}, proj_full, orc_c11, design_ref="4/C11"),
+    "C11": Prop("C11", [("match", None)], {"match", "locmatch", "langmatch", "matchx", "locmatchx"}, proj_full, orc_c11, design_ref="4/C11"),
     "C12": Prop("C12", [("rel", None)], {"rel", "eqstr"}, proj_full, orc_c12, design_ref="4/C12"),
-    "C13": Prop("C13", S(["tokens", "wf", "near", "raw"], "conv"), {"conv"}, proj_c13, orc_c13, design_ref="4/C13"),
+    "C13": Prop("C13", S(["tokens"], "conv") + S(["wf", "near", "raw"], "conv,convx"), {"conv", "convx"}, proj_c13, orc_c13,
+                design_ref="4/C13"),
     "C14": Prop("C14", [("layoutnames", None)] + S(["triples"], "dir"), {"dir", "locdir"}, proj_full, orc_c14, design_ref="4/C14",
                 configs=[("likely", ALL_FEATURES), ("nolikely", ("macros", "serde"))]),
     "C16": Prop("C16", [("macros", None)], {"mac"}, proj_c16, orc_c16, design_ref="4/C16"),
